@@ -4,8 +4,12 @@ spec/lang/DoraSem.tla is an executable semantics (definitional interpreter over 
 algebra). A seeded typed generator emits programs + ASTs; every run of every case on both code generators is a trace
 (stdout, exit status / trap kind) that TLC validates against the semantics instantiated with that program.
 """
+import os, sys
 from common import *
+import progs
 from checks.dsem_common import run_plan
+sys.path.insert(0, os.path.join(VERIF, "gen"))
+import float_render
 
 LEVEL = "model_checking"
 MANIFEST = dict(
@@ -16,14 +20,62 @@ MANIFEST = dict(
          "classes, enums + match, Option, lambdas capturing mutable state, globals) is compiled by the baseline and the optimizing "
          "code generator and executed; TLC judges each run: printed values, exit status and trap kind must be exactly what the "
          "semantics gives. Programs whose evaluation leaves the exactly representable integer domain are discarded and counted.",
-    note="Trusted: TLC; the generator renders AST and source from one tree; floats, strings (beyond templates), Vec, generics, traits "
+    note="Trusted: TLC; the generator renders AST and source from one tree; floats are covered by DoraFloat.tla on an exactly "
+         "representable sub-domain (specials, signed zeros, n/8 values) - not rounding; strings (beyond templates), Vec, generics, traits "
          "and trait objects are not in the modelled subset yet; lambdas are only invoked in their defining activation.",
     ref="4/C01")
 CATS = {"MISMATCH-status", "MISMATCH-output"}
 
 
+def float_part(ctx):
+    """spec->impl: rows of DoraFloat.tla (every operation x every operand pair of the exact sub-domain) against both code generators"""
+    r = tlc("DoraFloat", cfg="DoraFloat.cfg", cwd=os.path.join(SPEC, "lang"), workers=8, timeout=1800, heap="4g")
+    tlc_must_pass(r, "DoraFloat.cfg")
+    ctx.tlc_stats(r, "DoraFloat (one state per row; laws of the definitions)")
+    rows = float_render.load_rows(r.out)
+    if len(rows) != r.distinct:
+        raise ToolError(f"DoraFloat: {len(rows)} rows for {r.distinct} states")
+    programs, vs = float_render.programs(rows)
+    ctx.extra["float"] = {"rows": len(rows), "operands": len(vs), "programs": sorted(programs)}
+    names = sorted(programs)
+    if ctx.quick:      # all run-time programs, the literal programs of one width (seeded)
+        keep = 64 if ctx.seed % 2 else 32
+        names = [n for n in names if not n.startswith("const_") or n.endswith(str(keep))]
+    for name in names:
+        src, expected = programs[name]
+        path = os.path.join(ctx.work, f"float_{name}.dora")
+        open(path, "w").write(src)
+        for backend in ("cannon", "boots"):
+            exe = os.path.join(ctx.work, f"float_{name}_{backend}")
+            b, msg = progs.compile_prog(path, exe, backend=backend, timeout=900)
+            if b is None:
+                if "error:" in msg and "panicked" not in msg and "unreachable" not in msg and "failed" not in msg.split("error:")[0]:
+                    first = msg[msg.index("error:"):][:400]
+                    raise ToolError(f"float program {name} is rejected by the front end (renderer bug): {first}")
+                tail = " | ".join(l for l in msg.splitlines() if l.strip() and not l.startswith("/usr/bin/ld"))[-700:]
+                ctx.violation(f"[{backend}] the code generator fails on the well-typed float program `{name}`: {tail}",
+                              {"program": name, "backend": backend, "source_file": path, "message": msg[-3000:]}, key=f"float-compile:{name.split('_')[0]}:{backend}")
+                continue
+            rr = progs.run_prog(exe, timeout=300)
+            ctx.add("float_program_runs")
+            if rr.rc != 0 or rr.timed_out:
+                ctx.violation(f"[{backend}] float program `{name}` ends with {rr.ending()}; stderr {rr.err[-300:]!r}",
+                              {"program": name, "backend": backend, "source_file": path}, key=f"float-run:{name.split('_')[0]}:{backend}")
+                continue
+            diffs = float_render.compare(expected, rr.out.splitlines())
+            ctx.add("float_rows_compared", sum(len(e.split(" ")[-1]) if isinstance(e, str) else len(e[1]) for e in expected))
+            for tag, pos, exp, got in diffs[:6]:
+                ctx.violation(f"[{backend}] float semantics: `{tag}` position {pos} (operand index / pair index in the value list {[float_render.lit(v, 64) for v in vs]}): "
+                              f"spec {exp} program {got} (program {name})",
+                              {"program": name, "backend": backend, "tag": tag, "position": pos, "expected": exp, "observed": got, "source_file": path},
+                              key=f"float:{tag.replace(' ', ':')}:{backend}")
+            if not diffs:
+                ctx.add("traces_validated_against_impl")
+
+
 def run(ctx):
     build_repo(boots=True)
+    float_part(ctx)
     both = [("cannon", None), ("boots", None)]
     if ctx.quick:
         plan = [(ctx.seed * 100 + 1, 50, None, both, ("",)), (ctx.seed * 100 + 2, 40, None, both, ("",))]
